@@ -29,7 +29,11 @@ RULE = ("compounds: Hypothesis draws a flat or one-level grouped item list over 
         "and D2O_sld(c, v, f) real is s for v in 0, 0.3, 1. molecules: every entry of the fasta tables (99) on a 4x4 (v,d) grid, "
         "plus generated Molecule(formula, cell_volume | natural density | tag) and Sequence objects: .sld/.Dsld = direct real SLD "
         "of the H/D form at the cell volume, .D2Omatch = 100*f (oracle and nsf.D2O_match), .D2Osld = oracle mixture and "
-        "nsf.D2O_sld real part, .mass/.Dmass; a Sequence is also handed to nsf.D2O_sld as '<type>:codes'. Histories: inside the "
+        "nsf.D2O_sld real part, .mass/.Dmass; a Sequence is also handed to nsf.D2O_sld as '<type>:codes'. Private table: the same compound oracles with table=T, T a "
+        "private PeriodicTable customised as in the guide (masses rescaled to H[1]=1, densities accordingly, nsf.init), compounds as "
+        "strings, as Formula objects parsed with table=T and as dicts of T's atoms, reference values from T's own masses and "
+        "neutron data, in drawn order with the same case on the public table; fixed public-table probes are compared exactly "
+        "before the private table exists, every 20 cases and at the end. Histories: inside the "
         "molecules task (one process) a guard snapshots every fasta table molecule (object identities, formula structures, "
         "densities, cell_volume, charge, mass, Dmass, sld, Dsld, D2Omatch) and compares after every generated case, the table "
         "sweep runs at the start and at the end of the task, every generated object is built before and after its checks and "
@@ -46,6 +50,8 @@ ASSUMPTIONS = [
     "|denominator| < 1e-7*S (solute line parallel to the solvent line, e.g. labile water at water density) are counted as "
     "inconclusive for the match clause only",
     "D2O_match with a vector wavelength is compared element-wise",
+    "private table: the table= keyword is passed to D2O_sld/D2O_match for every form of compound (it also selects H[1], H, D and "
+    "the solvent); the fasta classes are not run on it (they do not take a table)",
     "after a modification of a table entry is reported the guard puts the snapshot back, so that the following cases of the "
     "task are judged on intact tables; at most 2 modified entries are reported per task (bucket per table and key)",
 ]
@@ -91,6 +97,36 @@ def env():
         E["hother"] = [["T", 0, 0], ["H", 3, 0], ["H", 0, 1], ["H", 0, -1], ["D", 0, 1], ["H", 2, 1]]
         E["dens_els"] = [s for s in els if T.symbol(s[0]).density is not None]
     return _STATE
+
+
+def private_env():
+    """A second environment on a private table customised as in doc/sphinx/guide/customizing.rst
+    (masses rescaled to H[1] = 1, densities accordingly), so that any value taken from the wrong
+    table shows in the numbers.  Everything the oracle needs is read from this table."""
+    E = env()
+    if "private" not in E:
+        from periodictable import core, mass, density, nsf
+        T = core.PeriodicTable("c16-H=1")
+        mass.init(T)
+        density.init(T)
+        scale = E["T"].H[1].mass
+        for el in T:
+            el._mass /= scale
+            if getattr(el, "_density", None) is not None:
+                el._density /= scale
+            for iso in el:
+                iso._mass /= scale
+        nsf.init(T)
+        P = dict(E)
+        P["T"] = T
+        P["table_kw"] = {"table": T}
+        P["which"] = "private"
+        E["private"] = P
+    return E["private"]
+
+
+def env_of(case):
+    return private_env() if case.get("table") == "private" else env()
 
 
 # ----------------------------------------------------------------------
@@ -364,6 +400,7 @@ def case_strategy(E):
 def build_compound(E, c):
     """-> (argument for the library, extra keywords, pairs, actual density rho, rendered text)."""
     pt = E["pt"]
+    tk = E.get("table_kw", {})
     items, group = c["items"], c["group"]
     text = render(items, group, c.get("alt", False))
     comp = composition(items, group)
@@ -374,7 +411,7 @@ def build_compound(E, c):
         (a, n), = pairs
         el = E["T"][a.number]
         rho = el.density * a.mass / el.mass
-        arg = text if c["route"] == "str" else pt.formula(text)
+        arg = text if c["route"] == "str" else pt.formula(text, **tk)
         return arg, {}, pairs, rho, text
     v = float(val)
     natural = kind == "nat"
@@ -387,11 +424,11 @@ def build_compound(E, c):
     if route == "kw":
         return text, {key: v}, pairs, rho, text
     if route == "obj-tag":
-        return pt.formula(text + tag), {}, pairs, rho, text + tag
+        return pt.formula(text + tag, **tk), {}, pairs, rho, text + tag
     if route == "obj-kw":
-        return pt.formula(text, **{key: v}), {}, pairs, rho, text
+        return pt.formula(text, **dict(tk, **{key: v})), {}, pairs, rho, text
     if route == "obj-attr":
-        f = pt.formula(text)
+        f = pt.formula(text, **tk)
         if natural:
             f.natural_density = v
         else:
@@ -399,7 +436,7 @@ def build_compound(E, c):
         return f, {}, pairs, rho, text
     if route == "obj-override":
         # the keyword replaces the density the object carries
-        return pt.formula(text + "@3.21"), {key: v}, pairs, rho, text
+        return pt.formula(text + "@3.21", **tk), {key: v}, pairs, rho, text
     if route == "dict-kw":
         return dict((a, n) for a, n in pairs), {key: v}, pairs, rho, text
     raise ValueError(route)
@@ -428,11 +465,23 @@ def call_sld(E, arg, v, d, style, kw):
 
 
 def check_compound(ctx, case):
-    E = env()
+    """One compound on the table named by case['table'] (default: the public one)."""
+    try:
+        _check_compound(ctx, case)
+    except Violation as v:
+        if case.get("table") == "private":
+            raise Violation(v.bucket + ":private-table", v.message, v.case)
+        raise
+
+
+def _check_compound(ctx, case):
+    E = env_of(case)
     np = E["np"]
+    which = case.get("table", "public")
     c, d, v, wl, style = case["c"], case["d"], case["v"], case["wl"], case["style"]
     arg, dkw, pairs, rho, text = build_compound(E, c)
     kw = dict(dkw, **lib_kw(E, wl))
+    kw.update(E.get("table_kw", {}))
     okw = lib_kw(E, wl)
     L = E["T"].H[1]
     n_lab = sum(n for a, n in pairs if a is L)
@@ -441,7 +490,11 @@ def check_compound(ctx, case):
     edep = any(a.neutron.is_energy_dependent for a, n in pairs)
     cls = ["labile:" + ("0" if not n_lab else "1" if n_lab == 1 else "n"), "route:" + c["route"], "density:" + c["dens"][0],
            "d:" + ("0" if d == 0 else "1" if d == 1 else "mid"), "v:" + ("0" if v == 0 else "1" if v == 1 else "mid"),
-           "wl:" + ("default" if wl is None else wl[0] + (":vector" if isinstance(wl[1], list) else ":scalar")), "style:" + style]
+           "wl:" + ("default" if wl is None else wl[0] + (":vector" if isinstance(wl[1], list) else ":scalar")), "style:" + style,
+           "table:" + which]
+    if which == "private":
+        cls.append("private:" + ("string" if isinstance(arg, str) else "dict" if isinstance(arg, dict) else "Formula")
+                   + (":labile" if n_lab else ""))
     if has_d:
         cls.append("with-D")
     if has_h:
@@ -455,14 +508,16 @@ def check_compound(ctx, case):
             cls.append("atom:" + ("H-other" if canon(spec)[0] == "H" and (canon(spec)[1] == 3 or spec[2]) else
                                   "isotope-ion" if spec[1] and spec[2] else "isotope" if spec[1] else "ion" if spec[2] else "element"))
     nontrivial = bool((n_lab and 0 < d < 1) or has_d)
-    ctx.case((text, c["dens"], c["route"], d, v, wl, style), nontrivial=nontrivial,
-             sample={"compound": text, "density": c["dens"], "route": c["route"], "d": d, "v": v, "wl": wl}, cls=sorted(set(cls)))
+    ctx.case((which, text, c["dens"], c["route"], d, v, wl, style), nontrivial=nontrivial,
+             sample={"table": which, "compound": text, "density": c["dens"], "route": c["route"], "d": d, "v": v, "wl": wl},
+             cls=sorted(set(cls)))
 
     Sr, Si = scale_of(E, pairs, rho, okw)
     Wr, Wi = water_scale(E, okw)
     direct = direct_sld(E, pairs, rho, d, okw)
     solvent = solvent_sld(E, d, okw)
-    where = "%s density=%r route=%s d=%r v=%r %r" % (text, c["dens"], c["route"], d, v, wl)
+    where = "%s density=%r route=%s d=%r v=%r %r%s" % (text, c["dens"], c["route"], d, v, wl,
+                                                        " table=<private, H[1]=1>" if which == "private" else "")
 
     # A. volume fraction 1: direct substitution
     got = call_sld(E, arg, 1.0, d, style, kw)
@@ -915,6 +970,71 @@ def task_compounds(ctx, n):
     ctx.search("compounds", case_strategy(E), check_compound, n)
 
 
+# ----------------------------------------------------------------------
+# the documented table= keyword: the same oracles on a private, customised table, and the public table afterwards
+PUBLIC_PROBES = [["C3H4H[1]NO@1.29n", 0.4, 0.7, 2.5], ["D2O@1.1", 0.5, 0.3, 1.798], ["Gd2H[1]3@5", 1.0, 0.6, 0.7],
+                 ["H[1]", 0.2, 0.9, 4.75]]
+ORDERS = [["private", "public"], ["public", "private"], ["private"], ["private", "private"]]
+
+
+def public_digest(E):
+    """Results of fixed public-table calls and a few table values (compared exactly)."""
+    nsf, np = E["nsf"], E["np"]
+    out = []
+    for text, v, d, wl in PUBLIC_PROBES:
+        r = nsf.D2O_sld(text, v, d, wavelength=wl)
+        m = nsf.D2O_match(text, wavelength=wl)
+        out.append([float(x) for x in np.ravel(r[0]).tolist() + np.ravel(r[1]).tolist() + [m[0], m[1]]])
+    T = E["T"]
+    out.append([T.H[1].mass, T.H.mass, T.D.mass, T.O.mass, T.C.density, T.H[1].neutron.b_c, T.Gd.neutron.b_c])
+    return out
+
+
+def check_tables_case(ctx, case):
+    for which in case["tables"]:
+        check_compound(ctx, dict(case, kind="compound", table=which))
+
+
+def check_private_history(ctx, case):
+    """Replay: public probes, then the calls (private and public table), then the public probes again."""
+    E = env()
+    before = public_digest(E)
+    for c in case["calls"]:
+        check_tables_case(ctx, c)
+    after = public_digest(E)
+    if after != before:
+        raise Violation("c16:public-changed-after-private", "public-table results changed after %d calls with table=<private>: %r -> %r"
+                        % (len(case["calls"]), before, after), case)
+
+
+def task_private(ctx, n):
+    limit_memory()
+    E = env()
+    before = public_digest(E)          # before the private table exists
+    state = {"calls": [], "n": 0, "reported": False}
+
+    def fn(c, v):
+        state["n"] += 1
+        state["calls"] = (state["calls"] + [v])[-20:]
+        try:
+            check_tables_case(c, v)
+        finally:
+            if state["n"] % 20 == 0 and not state["reported"]:
+                after = public_digest(E)
+                if after != before:
+                    state["reported"] = True
+                    c.violation("c16:public-changed-after-private",
+                                "public-table results changed after calls with table=<private>: %r -> %r" % (before, after),
+                                {"kind": "private-history", "calls": list(state["calls"])})
+    strat = st.tuples(case_strategy(E), st.sampled_from(ORDERS)).map(lambda t: dict(t[0], kind="tables", tables=t[1]))
+    ctx.search("private", strat, fn, n)
+    after = public_digest(E)
+    if after != before and not state["reported"]:
+        ctx.violation("c16:public-changed-after-private",
+                      "public-table results changed by the end of the task: %r -> %r" % (before, after),
+                      {"kind": "private-history", "calls": list(state["calls"])})
+
+
 def task_molecules(ctx, n):
     limit_memory()
     E = env()
@@ -935,13 +1055,16 @@ def tasks(tier):
                 ("compounds-b", task_compounds, dict(n=270)),
                 ("compounds-c", task_compounds, dict(n=270)),
                 ("compounds-d", task_compounds, dict(n=270)),
-                ("compounds-e", task_compounds, dict(n=270)),
-                ("compounds-f", task_compounds, dict(n=270)),
+                ("private-a", task_private, dict(n=200)),
+                ("private-b", task_private, dict(n=200)),
+                ("private-c", task_private, dict(n=200)),
                 ("molecules-a", task_molecules, dict(n=200)),
                 ("molecules-b", task_molecules, dict(n=200))]
     out = [("tables", task_tables, {})]
-    for k in range(12):
+    for k in range(9):
         out.append(("compounds-%d" % k, task_compounds, dict(n=10000)))
+    for k in range(3):
+        out.append(("private-%d" % k, task_private, dict(n=6000)))
     for k in range(3):
         out.append(("molecules-%d" % k, task_molecules, dict(n=10000)))
     return out
@@ -951,6 +1074,10 @@ def replay(ctx, case):
     k = case["kind"]
     if k == "compound":
         check_compound(ctx, case)
+    elif k == "tables":
+        check_tables_case(ctx, case)
+    elif k == "private-history":
+        check_private_history(ctx, case)
     elif k == "table-molecule":
         check_table_molecule(ctx, case)
     elif k == "history":
